@@ -45,6 +45,7 @@ op = st.one_of(
     st.tuples(st.just("add"), st.integers(0, NH - 1)),
     st.tuples(st.just("remove"), st.integers(0, NH - 1)),
     st.tuples(st.just("query"), st.integers(0, 3), st.integers(0, 1), st.sampled_from([0, 1, 50, 100, 1000])),
+    st.tuples(st.just("mute"), st.sampled_from([0, 0, 2, 1]), st.booleans()),
     st.tuples(st.just("advance"), st.sampled_from([0, 1, 2, 10, 49, 50, 51, 99, 100, 101, 500, 1000, 5000])),
     st.tuples(st.just("advance"), st.sampled_from([0, 1, 2, 10, 49, 50, 51, 99, 100, 101, 500, 1000, 5000])),
 ).map(list)
@@ -138,6 +139,13 @@ class Run:
                 self.log.append(["STATE", SW[o[1]], sw.state, sw.hw_state])
             elif k == "add":
                 self.add(o[1])
+            elif k == "mute":
+                sw = self.m.switches[SW[o[1]]]
+                if o[2]:
+                    sw.mute("verif")
+                else:
+                    sw.unmute("verif")
+                self.log.append(["MUTE", SW[o[1]], bool(o[2])])
             elif k == "remove":
                 self.remove(o[1])
             elif k == "query":
@@ -181,6 +189,7 @@ class Oracle:
         self.optional_immediate = []
         self.exp_events = []
         self.timed_ev = []      # dicts(name, sw, due, optional)
+        self.muted = set()      # muted switches keep their state up to date but call nobody
         self.nrid = 0
 
     def v(self, sig, msg):
@@ -223,6 +232,13 @@ class Oracle:
                 # real change
                 self.state[sw] = logical
                 self.t0[sw] = T
+                if sw in self.muted:
+                    # a muted switch follows the hardware, drops what was pending for the state it left and calls nobody
+                    self.classes.add("change-while-muted")
+                    self.pending = [p for p in self.pending if SW[self.h[p["hid"]]["sw"]] != sw]
+                    self.timed_ev = [p for p in self.timed_ev if p["sw"] != sw]
+                    self._track(e)
+                    continue
                 for p in list(self.pending):
                     if SW[self.h[p["hid"]]["sw"]] == sw:
                         self.classes.add("change-inside-hold-interval")
@@ -241,6 +257,11 @@ class Oracle:
                 for name, ms in TIMED_EVENTS.get(sw, {}).get(logical, []):
                     self.timed_ev.append({"name": name, "sw": sw, "due": T + ms})
                     self.classes.add("configured event with hold time armed")
+            elif k == "MUTE":
+                if e[2]:
+                    self.muted.add(e[1])
+                else:
+                    self.muted.discard(e[1])
             elif k == "SYNC_END":
                 self.close_sync("T=%d" % T)
             elif k == "STATE":
